@@ -8,7 +8,8 @@ THEOREMS = [
     "C12_join_branches_disjoint", "C12_schedule_independent", "C12_verify_binding", "C12_verify_binding_ex",
     "C12_other_leaf_collision", "C12_altered_sibling_collision", "C12_altered_cap_rejected",
     "C12_verify_out_of_range_panics", "C12_hash_or_noop_injective_same_width", "C12_hash_or_noop_pads",
-    "C12_example_tree", "C12_example_binding_hypotheses", "C12_example_poseidon_root",
+    "C12_batch_prove_verify",
+    "C12_example_tree", "C12_example_batch", "C12_example_binding_hypotheses", "C12_example_poseidon_root",
 ]
 
 def oracle_scan(casefile, limit=20):
@@ -144,7 +145,7 @@ def main():
         "theorems are about the model; the model is tied to the Rust code by correspondence on observable results "
         "(cap, every prove(i), every verdict), not on the internal digests array",
         "KeccakHash<25> is not run (byte-oriented; only the HashOut-shaped hashers are modelled)",
-        "path compression and batch trees: model + correspondence; no general theorem yet (see Props/C12.v)",
+        "path compression: model + correspondence only (decompress_compress is not proved)",
         "data-race freedom of the MaybeUninit writes under rayon is not modelled (index-set disjointness is proved)"])
 
 def replay(c, path):
